@@ -620,3 +620,12 @@ def the_poll_loop_does_its_work(ctx):
                 sids = {i for tg, v, s in attr_stores(tr.node) if tg.attr == 'last_main' for i in cfgt.node_of(s)}
                 ctx.check(bool(sids) and sids <= side, f'{tr.qualname}:immediate resets last_main', t.ast, 'last_main = 0 on the immediate side',
                           f'`{src(t.ast)}`: trigger(immediate=True) does not make the main poll due', tr)
+
+
+@rule('C13.R9', min_instances=1)
+def the_poller_hears_of_a_new_interval_whatever_other_listeners_do(ctx):
+    """shared with C05.R2b: a written pollinterval reaches PollInfo.update_interval as ONE of the parameter callbacks of
+    announceUpdate, registered last (when the poll thread starts).  Each callback is guarded on its own, inside the loop: a guard
+    around the whole loop lets the first failing listener skip the poller's, and the new interval never takes effect"""
+    from sa.rules import c05
+    c05.callback_guard_handler_is_total(ctx)
